@@ -207,14 +207,17 @@ Section Chars.
     end.
 End Chars.
 
-(* "%s" % num *)
-Fixpoint dec_fuel (f : nat) (n : N) (acc : str) : str :=
-  match f with
-  | O => acc
-  | S f' => let d := (48 + n mod 10)%N in
-            if N.ltb n 10 then d :: acc else dec_fuel f' (n / 10)%N (d :: acc)
+(* "%s" % num: the decimal digits (standard library conversion to Decimal.uint) *)
+Fixpoint uint_str (d : Decimal.uint) : str :=
+  match d with
+  | Decimal.Nil => []
+  | Decimal.D0 r => 48%N :: uint_str r | Decimal.D1 r => 49%N :: uint_str r
+  | Decimal.D2 r => 50%N :: uint_str r | Decimal.D3 r => 51%N :: uint_str r
+  | Decimal.D4 r => 52%N :: uint_str r | Decimal.D5 r => 53%N :: uint_str r
+  | Decimal.D6 r => 54%N :: uint_str r | Decimal.D7 r => 55%N :: uint_str r
+  | Decimal.D8 r => 56%N :: uint_str r | Decimal.D9 r => 57%N :: uint_str r
   end.
-Definition dec (n : N) : str := dec_fuel (S (N.size_nat n)) n [].
+Definition dec (n : N) : str := uint_str (N.to_uint n).
 
 Definition s_ns : str := [110; 115]%N.                               (* "ns" *)
 Definition s_default : str := [100; 101; 102; 97; 117; 108; 116]%N.  (* "default" *)
@@ -289,15 +292,15 @@ Definition m_insert_strie (s : mst) (v : str) : mst :=
   if memb str_eqb v (strie s) then s
   else set_tries s (strie s ++ [v]) (insert_trie (trie_ s) v).
 
-Inductive exn := EKey | EValue.
+Inductive exn := EKey | EValue | ELoop.   (* ELoop: not an exception - a while loop of the code would not end *)
 
-Inductive numres := NAlready | NFresh (p : str).
+Inductive numres := NAlready | NFresh (p : str) | NLoop.   (* NLoop: the while loop does not end *)
 
 (* the "while 1" of NamespaceManager.bind; among |p2n|+1 candidates one is unbound *)
 Fixpoint find_num (s : mst) (base ns : str) (fuel : nat) (num : N) : numres :=
   let np := base ++ dec num in
   match fuel with
-  | O => NFresh np
+  | O => NLoop
   | S f =>
       match dget (p2n s) np with
       | Some tn => if truthy tn && str_eqb ns tn then NAlready
@@ -339,6 +342,7 @@ Definition m_bind (s : mst) (prefix : option str) (ns : str) (ov rep : bool) : m
       match find_num s base ns (S (length (p2n s))) 1 with
       | NAlready => (s, None)
       | NFresh np => finish (m_store_bind s np ns ov)
+      | NLoop => (s, Some ELoop)
       end
   else
     match dget (n2p s) ns with
@@ -360,7 +364,7 @@ Section Manager.
   Definition m_generate (s : mst) (ns : str) (gen : bool) : mst * (str + exn) :=
     if negb gen then (s, inr EKey) else
     match find_ns s (S (length (p2n s))) 1 with
-    | None => (s, inr EKey)
+    | None => (s, inr ELoop)
     | Some p =>
         let r := m_bind s (Some p) ns true false in
         match snd r with Some x => (fst r, inr x) | None => (fst r, inl p) end
@@ -592,7 +596,7 @@ Definition qn_eqb (a b : qn) : bool :=
   let '(a1, a2, a3) := a in let '(b1, b2, b3) := b in
   str_eqb a1 b1 && str_eqb a2 b2 && str_eqb a3 b3.
 Definition exn_eqb (a b : exn) : bool :=
-  match a, b with EKey, EKey | EValue, EValue => true | _, _ => false end.
+  match a, b with EKey, EKey | EValue, EValue | ELoop, ELoop => true | _, _ => false end.
 Definition res_eqb (a b : res) : bool :=
   match a, b with
   | RUnit, RUnit => true
@@ -663,10 +667,50 @@ Definition res_ok (l : list (str * str)) (o : op) (r : res) : bool :=
 Definition snap_ok (o : op) (x : snap) : bool :=
   bij_ok (s_list x) (s_rev x) && s_api x && res_ok (s_list x) o (s_res x).
 
-Fixpoint all_ok (ops : list op) (obs : list snap) : bool :=
+(* When may an operation raise, and what?  (Judged on the listings observed after the step; an
+   operation that raises leaves the bindings as they were.)
+   ValueError: the IRI has a character URIRef warns about, or it cannot be split and is not
+               itself a namespace with a non-empty prefix; compute_qname_strict also when the strict
+               split fails; expand_curie when there is no colon or the prefix is not bound.
+   KeyError:   only with generate=False (no prefix for the namespace chosen).
+   ELoop is not an exception at all (a while loop of the code not ending): never accepted. *)
+Definition sp_exists (sp : str -> option (str * str)) (r : list (str * str)) (u : str) : bool :=
+  match sp u with
+  | Some _ => true
+  | None => match dget r u with Some p => truthy p | None => false end
+  end.
+Definition compute_exn_ok (sp : str -> option (str * str)) (r : list (str * str)) (u : str) (gen : bool)
+                          (e : exn) : bool :=
+  match e with
+  | EValue => negb (valid_uri u) || negb (sp_exists sp r u)
+  | EKey => negb gen && valid_uri u && sp_exists sp r u
+  | ELoop => false
+  end.
+Definition is_none {A} (x : option A) : bool := match x with None => true | Some _ => false end.
+Definition exn_ok (sp sps : str -> option (str * str)) (l r : list (str * str)) (o : op) (x : res) : bool :=
+  match x with
+  | RExn e =>
+      match o with
+      | OQname u => compute_exn_ok sp r u true e
+      | OCurie u g | OCompute u g => compute_exn_ok sp r u g e
+      | OStrict u g => compute_exn_ok sp r u g e || (exn_eqb e EValue && is_none (sps u))
+                       || (exn_eqb e EKey && negb g)
+      | ONorm u => exn_eqb e EValue && negb (valid_uri u)
+      | OExpand c => exn_eqb e EValue &&
+                     match split_colon c with None => true | Some (pre, _) => is_none (dget l pre) end
+      | OBind _ _ _ _ | OReset => true      (* judged by res_ok *)
+      | OOther => negb (exn_eqb e ELoop)
+      end
+  | _ => true
+  end.
+
+Definition snap_ok2 (sp sps : str -> option (str * str)) (o : op) (x : snap) : bool :=
+  snap_ok o x && exn_ok sp sps (s_list x) (s_rev x) o (s_res x).
+
+Fixpoint all_ok (sp sps : str -> option (str * str)) (ops : list op) (obs : list snap) : bool :=
   match ops, obs with
   | [], [] => true
-  | o :: r, x :: xs => snap_ok o x && all_ok r xs
+  | o :: r, x :: xs => snap_ok2 sp sps o x && all_ok sp sps r xs
   | _, _ => false
   end.
 
@@ -688,7 +732,7 @@ Definition model_obs (c : case) : obs :=
 Definition model_final (c : case) : mst :=
   m_final (c_split c) (c_split_s c) (c_ncname c) m_init (c_ops c).
 
-Definition spec_ok (c : case) (o : obs) : bool := all_ok (c_ops c) o.
+Definition spec_ok (c : case) (o : obs) : bool := all_ok (c_split c) (c_split_s c) (c_ops c) o.
 
 (* conformance runs (default bindings, parse, serialize): there is no model of these
    operations; the per-step checker alone is applied to what rdflib shows.  To keep the
@@ -717,7 +761,7 @@ Definition dec_snap (t : list str) (x : isnap) : snap :=
 Definition conf_model (c : case) : cobs := ([], []).
 Definition conf_eqb (a b : cobs) : bool := true.
 Definition conf_spec (c : case) (o : cobs) : bool :=
-  match snd o with [] => true | l => all_ok (c_ops c) (map (dec_snap (fst o)) l) end.
+  all_ok (c_split c) (c_split_s c) (c_ops c) (map (dec_snap (fst o)) (snd o)).
 
 (* The model-backed suites hand the implementation's observation over in the packed form
    as well; the model's is plain.  Both are compared and checked after decoding. *)
@@ -735,9 +779,10 @@ Fixpoint dec_j (t : list str) (prev : list (str * str) * list (str * str)) (l : 
       :: dec_j t cur r
   end.
 
-Inductive dobs := Plain (o : obs) | Packed (t : list str) (l : list isnap) | PackedD (t : list str) (l : list jsnap).
+Inductive dobs := Plain (o : obs) | Packed (t : list str) (l : list isnap) | PackedD (t : list str) (l : list jsnap)
+               | NoModel.   (* what the model-less suites put in the model's place; never an observation *)
 Definition dec_d (d : dobs) : obs :=
-  match d with Plain o => o | Packed t l => map (dec_snap t) l | PackedD t l => dec_j t ([], []) l end.
+  match d with Plain o => o | Packed t l => map (dec_snap t) l | PackedD t l => dec_j t ([], []) l | NoModel => [] end.
 Definition d_model (c : case) : dobs := Plain (model_obs c).
 Definition d_eqb (a b : dobs) : bool := obs_eqb (dec_d a) (dec_d b).
 Definition d_spec (c : case) (o : dobs) : bool := spec_ok c (dec_d o).
@@ -840,7 +885,7 @@ Definition wc_ncname (c : wcase) := is_ncname (cat_of (wc_cats c)).
 
 Definition w_model_obs (c : wcase) : obs :=
   w_run (wc_split c) (wc_split_s c) (wc_ncname c) w_init (wc_ops c).
-Definition w_spec_ok (c : wcase) (o : obs) : bool := all_ok (map wop_op (wc_ops c)) o.
+Definition w_spec_ok (c : wcase) (o : obs) : bool := all_ok (wc_split c) (wc_split_s c) (map wop_op (wc_ops c)) o.
 Definition wd_model (c : wcase) : dobs := Plain (w_model_obs c).
 Definition wd_spec (c : wcase) (o : dobs) : bool := w_spec_ok c (dec_d o).
 (* trigger of finding F6e, as narrow as it gets: some operation answered from a cache entry
@@ -849,7 +894,38 @@ Definition w_kf (c : wcase) : N :=
   if w_stale (wc_split c) (wc_split_s c) (wc_ncname c) w_init (wc_ops c) then 5%N else 0%N.
 
 (* the conformance suites in the delta form *)
-Definition confd_model (c : case) : dobs := Plain [].
+(* an empty observation is accepted only for an empty history; [NoModel] is the token that
+   stands where a model-backed suite has its model's observation (bit 8 of the check code) *)
+Definition confd_model (c : case) : dobs := NoModel.
 Definition confd_eqb (a b : dobs) : bool := true.
 Definition confd_spec (c : case) (o : dobs) : bool :=
-  match dec_d o with [] => true | l => all_ok (c_ops c) l end.
+  match o with NoModel => true | _ => spec_ok c (dec_d o) end.
+
+(* Suite nsdsconform, histories that go through ConjunctiveGraph.default_context (finding F6e,
+   demonstrated with its precise trigger by suite nsworld): nothing is waived except the one
+   thing F6e can break - "the prefix answered is bound now".  The bijection, the API
+   agreement, the rendering, namespace ++ name = IRI and the exception discipline are still
+   demanded. *)
+Definition qn_exp_ok (u : str) (q : qn) : bool := let '(_, ns, nm) := q in str_eqb (ns ++ nm) u.
+Definition res_ok_w (l : list (str * str)) (o : op) (r : res) : bool :=
+  match o, r with
+  | OQname u, RQ s q _ => str_eqb s (qname_str q) && qn_exp_ok u q
+  | OCurie u _, RQ s q _ | ONorm u, RQ s q _ => str_eqb s (curie_str q) && qn_exp_ok u q
+  | OCompute u _, RT q | OStrict u _, RT q => qn_exp_ok u q
+  | _, _ => res_ok l o r
+  end.
+Definition snap_ok_w (sp sps : str -> option (str * str)) (o : op) (x : snap) : bool :=
+  bij_ok (s_list x) (s_rev x) && s_api x && res_ok_w (s_list x) o (s_res x)
+  && exn_ok sp sps (s_list x) (s_rev x) o (s_res x).
+Fixpoint all_ok_w (sp sps : str -> option (str * str)) (ops : list op) (obs : list snap) : bool :=
+  match ops, obs with
+  | [], [] => true
+  | o :: r, x :: xs => snap_ok_w sp sps o x && all_ok_w sp sps r xs
+  | _, _ => false
+  end.
+Definition confd_spec_t (c : case) (o : dobs) : bool :=
+  match o with
+  | NoModel => true
+  | _ => if N.eqb (c_tag c) 1 then all_ok_w (c_split c) (c_split_s c) (c_ops c) (dec_d o)
+         else spec_ok c (dec_d o)
+  end.
